@@ -36,9 +36,11 @@ inductive V where
   | polv (u : Store.Uid) (p : Store.Pol) (ok : Bool)   -- a Policy object handed to / read from a storage: its uid, its
                                                -- content, whether the backend can store it
   | pols (l : Store.St)                        -- a listing read from a storage
-  | eworld (cfg : Store.Cfg) (s : Enfold.EState) (touched : Bool) (raised : Option Store.Out)
-                                               -- what the methods of the enfolding cache act on: the two stores, whether
-                                               -- the backend was called, the exception a storage call ended in
+  | eworld (cfg : Store.Cfg) (s : Enfold.EState) (touched : Bool) (notified : Nat) (raised : Option Store.Out)
+                                               -- what the methods of a storage wrapper act on: the wrapped storage (and
+                                               -- the cache store of the enfolding cache), whether the wrapped storage was
+                                               -- called, how often the listeners were notified, the exception a storage
+                                               -- call ended in
 
 instance : Inhabited V := ⟨.py .none⟩
 
@@ -64,7 +66,7 @@ def truth : V → Bool
   | .world _ _ _ _ => true
   | .polv _ _ _ => true
   | .pols l => !l.isEmpty
-  | .eworld _ _ _ _ => true
+  | .eworld _ _ _ _ _ => true
 
 /-- the answer of `satisfied` as the checkers see it: its truthiness, or the exception -/
 def toR (m : M) : R := m.map truth
@@ -609,7 +611,7 @@ def stCallM (target meth : String) (args : List M) (w : M) (k : V → V → M) :
   bindM w fun w => match evalArgs args with
     | .error e => .error e
     | .ok vs => match w with
-      | .eworld cfg s touched Option.none =>
+      | .eworld cfg s touched nt Option.none =>
         let isB := target == "storage"
         (match storeOpOf meth vs isB with
          | Option.none => raiseM
@@ -618,12 +620,18 @@ def stCallM (target meth : String) (args : List M) (w : M) (k : V → V → M) :
            let s' : Enfold.EState := if isB then { s with backend := r.1 } else { s with cache := r.1 }
            let t := touched || isB
            (match r.2 with
-            | .done => k (.py .none) (.eworld cfg s' t Option.none)
-            | .pol Option.none => k (.py .none) (.eworld cfg s' t Option.none)
-            | .pol (some p) => k (.polv (uidArg vs) p true) (.eworld cfg s' t Option.none)
-            | .pols l => k (.pols l) (.eworld cfg s' t Option.none)
-            | e => .ok (.eworld cfg s' t (some e))))
+            | .done => k (.py .none) (.eworld cfg s' t nt Option.none)
+            | .pol Option.none => k (.py .none) (.eworld cfg s' t nt Option.none)
+            | .pol (some p) => k (.polv (uidArg vs) p true) (.eworld cfg s' t nt Option.none)
+            | .pols l => k (.pols l) (.eworld cfg s' t nt Option.none)
+            | e => .ok (.eworld cfg s' t nt (some e))))
       | _ => raiseM
+
+/-- `self.notify()`: the listeners are told once more -/
+def notifyM (w : M) (k : V → M) : M :=
+  bindM w fun w => match w with
+    | .eworld cfg s t nt Option.none => k (.eworld cfg s t (nt + 1) Option.none)
+    | _ => raiseM
 
 /-- `return x` of a method that acts on a world: the value and the world -/
 def pairM (x w : M) : M := bindM x fun x => bindM w fun w => .ok (.seq [x, w])
